@@ -706,6 +706,8 @@ class CallMixin:
         looked_up = getattr(b, "attr_name", name)
         if stub is not None and stub(looked_up) and len(self.stack) >= 1:
             self.event("stub_call", name=looked_up, cls=b.cls, args=list(args), kwargs=dict(kwargs))
+            # the handler behind the stub can raise whatever an enclosing try is prepared to catch
+            self.external_may_raise(f"handler {looked_up}")
             return Sym("stubcall", f"{b.cls}.{looked_up}", tuple(args))
         decos = getattr(b, "decorators", None)
         if decos and not getattr(self, "_in_decorated", False):
